@@ -33,15 +33,16 @@ SIG_REMOVE = ("remove-not-undoable: undoing a history entry that contains a Remo
 SIG_ALIAS = ("class-blind-dependency: the dependency scan compares resources by class and path, so a later change "
              "reaching the same path (or a path below it) through a resource of the other class (File vs Folder) is "
              "not undone with the chosen change")
-SIG_OVERWRITE = ("irreversible-do: the change being undone was not exactly reversible when it was performed (a "
-                 "MoveResource overwrote an existing destination file): undo cannot bring the overwritten file back")
+SIG_OVERWRITE = ("occupied-destination: a MoveResource was performed whose destination path existed (a file: silently "
+                 "overwritten; a folder: the resource was moved inside it); undo moves the destination path back and cannot "
+                 "restore what was there")
 
 SIG_DROP = ("drop-stale-redo: undo(drop=True) forgot a change but left in the redo list an entry that depends on it; redoing "
             "that entry later acts on a tree in which its dependency was never made")
 
 LIMITS = [0, 1, 2, 3, 100]
 FAILING = ("bookkeeping", "limit", "empty-not-refused", "closure", "undo-raised", "redo-raised", "not-inverse",
-           "replay", "refused-do-effect", "current-change")
+           "replay", "refused-do-effect", "current-change", "step-not-reversible")
 
 
 # ----------------------------------------------------------------------------------- generators
@@ -77,6 +78,8 @@ def catalogue():
         (1, [D("EA"), D("EMPTY"), D("IG"), ["undo", None, False], ["undo", None, False]], "catalogue"),
         (2, [D("EA"), D("EB"), D("CF"), D("MD"), ["undo", 0, False], ["redo", None], ["redo", None]], "catalogue"),
         (0, [D("EA"), ["undo", None, False], ["redo", None]], "catalogue"),
+        (100, [D("EA"), D("EB"), D("CF"), ["limit", 1], ["undo", None, False], ["redo", None], D("MD"), ["limit", 3],
+               D("EA"), D("EB"), ["limit", 0], ["undo", 0, False], D("EA")], "catalogue"),
         (100, [D("MF"), D("EA"), ["undo", None, False], ["undo", 0, True], ["redo", None]], "catalogue"),
         (100, [D("CD"), D("MD"), D("EB"), ["undo", 1, False], ["redo", 1], ["undo", 0, True]], "catalogue"),
         (100, [D("NS"), D("NS"), D("EA"), ["undo", 0, False], ["redo", ("mod", 1)], ["undo", 7, False], ["redo", 9]], "catalogue"),
@@ -100,8 +103,10 @@ def random_script(rng, quirks):
         elif r < 0.8:
             sel = ("mod", rng.randrange(50)) if rng.random() < 0.93 else rng.choice([7, 40])
             script.append(["undo", sel, rng.random() < 0.15])
-        elif r < 0.88:
+        elif r < 0.86:
             script.append(["redo", None])
+        elif r < 0.89:
+            script.append(["limit", rng.choice(LIMITS)])
         else:
             sel = ("mod", rng.randrange(50)) if rng.random() < 0.93 else rng.choice([7, 40])
             script.append(["redo", sel])
@@ -126,7 +131,8 @@ def judge(ses, replay_oracle=True):
     snaps = {}                    # id(object) -> (tree before its do, tree after, irreversible?)
     tainted = False
     dropped_paths = []            # paths of the changes forgotten by drop=True while the redo list was non-empty
-    stale_redone = False          # a redo entry that depended on a forgotten change has been redone
+    lowered = False               # the limit preference was lowered and no change has been recorded since
+    prev_limit = ses.max_undos
 
     def bad(idx, kind, text, cls=None):
         verdicts.append(Verdict(idx, kind, text, cls or ("unexplained:" + kind)))
@@ -134,11 +140,23 @@ def judge(ses, replay_oracle=True):
     for idx, st in enumerate(ses.steps):
         if st.build_error is not None:
             continue
+        limit_now = st.limit_now
+        same_lists = _same_objs(st.pre_undo_objs, st.post_undo_objs) and _same_objs(st.pre_redo_objs, st.post_redo_objs)
+        if st.kind == "limit":
+            # changing the preference by itself touches nothing (trimming happens at the next do / save)
+            if not same_lists or st.post_tree != st.pre_tree:
+                bad(idx, "bookkeeping", "setting max_history_items changed the lists or the tree")
+            if limit_now < prev_limit:
+                lowered = True
+            prev_limit = limit_now
+            continue
         if not st.current_change_cleared:
             bad(idx, "current-change", "history.current_change left set after %s" % st.kind)
-        if len(st.post_undo_objs) > ses.max_undos:
-            bad(idx, "limit", "undo list has %d entries, limit is %d" % (len(st.post_undo_objs), ses.max_undos))
-        same_lists = _same_objs(st.pre_undo_objs, st.post_undo_objs) and _same_objs(st.pre_redo_objs, st.post_redo_objs)
+        recorded = st.kind == "do" and not st.raised and not _same_objs(st.pre_undo_objs, st.post_undo_objs)
+        if recorded:
+            lowered = False
+        if len(st.post_undo_objs) > limit_now and not lowered:
+            bad(idx, "limit", "undo list has %d entries, limit is %d" % (len(st.post_undo_objs), limit_now))
         if st.kind == "do":
             if st.raised:
                 if not same_lists:
@@ -154,13 +172,15 @@ def judge(ses, replay_oracle=True):
             exp = list(st.pre_undo_objs)
             if interesting:
                 exp.append(st.built)
-                if len(exp) > ses.max_undos:
-                    exp = exp[len(exp) - ses.max_undos:]
+                if len(exp) > limit_now:
+                    exp = exp[len(exp) - limit_now:]
             if not _same_objs(exp, st.post_undo_objs) or st.post_redo_objs:
                 bad(idx, "bookkeeping", "after do the undo list is not old+[change] trimmed to the limit, or the redo "
                                         "list is not empty")
             in_force.append((st.built, st.change))
-            snaps[id(st.built)] = (st.pre_tree, st.post_tree, st.py_irrev or st.unmodelled)
+            # the exact shape of the overwrite finding: a move leaf whose destination was a file of the tree
+            over = [(l[1], l[2]) for l in L10.leaves(st.change) if l[0] == "MV" and l[2] in st.pre_tree and l[1] != l[2]]
+            snaps[id(st.built)] = (st.pre_tree, st.post_tree, st.py_irrev or st.unmodelled, over)
             dropped_paths = []                      # the redo list is empty again
             continue
         # ---- undo / redo
@@ -179,17 +199,17 @@ def judge(ses, replay_oracle=True):
         i = st.sel if st.sel is not None else len(src_objs) - 1
         closure = L.path_closure(src_specs, i)
         coherent = L.classes_coherent(src_specs)
-        stale = stale_redone or (st.kind == "redo" and any(L.nested_paths(p, q) for j in closure
-                                                           for p in L.spec_paths(src_specs[j]) for q in dropped_paths))
-        if stale and not st.raised:
-            stale_redone = True
+        # the exact shape of the drop finding: THIS redo takes an entry whose paths overlap those of a change that
+        # was forgotten by drop=True while the entry was already in the redo list
+        stale = (st.kind == "redo" and any(L.nested_paths(p, q) for j in closure
+                                           for p in L.spec_paths(src_specs[j]) for q in dropped_paths))
         if st.raised:
             cls = None
             if stale:
                 cls = SIG_DROP
-            elif 7 in st.codes and any(L.has_remove(src_specs[j]) for j in range(i, len(src_specs))):
+            elif st.codes[:1] == [7] and any(L.has_remove(src_specs[j]) for j in closure):
                 cls = SIG_REMOVE
-            elif any(snaps.get(id(src_objs[j]), (0, 0, False))[2] for j in closure):
+            elif any(snaps.get(id(src_objs[j]), (0, 0, False, []))[3] for j in closure):
                 cls = SIG_OVERWRITE
             elif not coherent:
                 cls = SIG_ALIAS
@@ -201,7 +221,16 @@ def judge(ses, replay_oracle=True):
         info["sel_steps"] += 1
         deps = list(st.deps or [])
         R = list(st.returned_objs or [])
-        irrev_involved = any(snaps.get(id(o), (0, 0, False))[2] for o in R)
+        over_paths = [q for o in R for q in snaps.get(id(o), (0, 0, False, []))[3]]
+        irrev_involved = bool(over_paths)
+
+        def only_overwritten(diff):
+            # the failure predicted for that finding: only paths at, below or above the source / destination differ
+            # (or paths of the same name, when a folder around them has been moved back by the same undo)
+            names = set(q.split("/")[-1] for pq in over_paths for q in pq)
+            return bool(diff) and all(d.split("/")[-1] in names or any(L.nested_paths(d, q) for pq in over_paths for q in pq)
+                                      for d in diff)
+
         cls_hint = (SIG_DROP if stale else SIG_ALIAS if (not coherent and sorted(deps) != closure)
                     else SIG_OVERWRITE if irrev_involved else None)
         if -1 in deps or not deps or i not in deps:
@@ -235,12 +264,20 @@ def judge(ses, replay_oracle=True):
             in_force.extend((o, L10.abstract_change(o)) for o in R)
         if tainted:
             continue
+        # an undo / redo must itself be exactly reversible (it found the contents / the free paths it expects)
+        if st.py_irrev and st.unknown_phase == 0:
+            bad(idx, "step-not-reversible", "%s of position %d acted on a tree that is not the one its changes were "
+                                            "recorded on (stale contents or an occupied path)" % (st.kind, i),
+                SIG_DROP if stale else SIG_OVERWRITE if irrev_involved else None)
+            tainted = True
         # the snapshot taken around the do of a single change
         if len(R) == 1 and id(R[0]) in snaps:
-            pre, post, irr = snaps[id(R[0])]
+            pre, post, irr, _over = snaps[id(R[0])]
             if st.kind == "undo" and st.pre_tree == post and st.post_tree != pre:
-                bad(idx, "not-inverse", "the tree was as the change left it; after undo it is not as before the change",
-                    SIG_OVERWRITE if irr else cls_hint)
+                diff = sorted(p for p in set(pre) | set(st.post_tree) if pre.get(p, 0) != st.post_tree.get(p, 0))
+                bad(idx, "not-inverse", "the tree was as the change left it; after undo it is not as before the change "
+                                        "(at %s)" % ", ".join(diff[:4]),
+                    SIG_OVERWRITE if only_overwritten(diff) else (cls_hint if cls_hint != SIG_OVERWRITE else None))
                 tainted = True
             if st.kind == "redo" and st.pre_tree == pre and st.post_tree != post and not irr:
                 bad(idx, "not-inverse", "the tree was as before the change; after redo it is not as the change left it", cls_hint)
@@ -250,12 +287,13 @@ def judge(ses, replay_oracle=True):
             exp, why = L.replay_tree(ses.tree, [s for (_, s) in in_force])
             if exp is None:
                 bad(idx, "replay", "the %d changes still in force cannot be re-executed from the initial tree (%s)" % (
-                    len(in_force), why), cls_hint)
+                    len(in_force), why), cls_hint if cls_hint != SIG_OVERWRITE else None)
                 tainted = True
             elif exp != st.post_tree:
                 diff = sorted(p for p in set(exp) | set(st.post_tree) if exp.get(p, 0) != st.post_tree.get(p, 0))
                 bad(idx, "replay", "after %s the tree differs from re-executing the %d changes still in force, at %s" % (
-                    st.kind, len(in_force), ", ".join(diff[:6])), cls_hint)
+                    st.kind, len(in_force), ", ".join(diff[:6])),
+                    cls_hint if (cls_hint != SIG_OVERWRITE or only_overwritten(diff)) else None)
                 tainted = True
         if tainted and info["tainted_at"] is None:
             info["tainted_at"] = idx
@@ -342,6 +380,8 @@ MISMATCH_BITS = {1: "raised flag / exception chain", 2: "tree", 4: "undo list", 
 
 
 def describe(word):
+    if word == 1:
+        return -1, "Project.is_ignored on the resources of the session"
     step = word // 64 - 1
     return step, ", ".join(t for b, t in MISMATCH_BITS.items() if word & b)
 
@@ -365,10 +405,10 @@ def evaluate(ctx, sessions, bp="false"):
         shards.append(cur)
     bodies = [L.Printer().file_body(sh, ["report %s repaired cases" % bp, "stats %s repaired cases" % bp]) for sh in shards]
     outs = ctx.coq_files_parallel(bodies)
-    words, stats = [], [0, 0, 0, 0]
+    words, stats = [], [0, 0, 0, 0, 0]
     for sh, out in zip(shards, outs):
         nums = ctx.parse_nums(out)
-        if len(nums) != 2 or len(nums[0]) != len(sh) or len(nums[1]) != 4:
+        if len(nums) != 2 or len(nums[0]) != len(sh) or len(nums[1]) != 5:
             raise RuntimeError("unexpected coqc output: %s" % out[:500])
         words.extend(nums[0])
         stats = [a + b for a, b in zip(stats, nums[1])]
@@ -404,7 +444,7 @@ def run(ctx):
         plans.append((ctx.rng.choice(LIMITS), random_script(ctx.rng, quirks), "random-quirks" if quirks else "random"))
     n_cat = len(catalogue())
     reported = {}
-    stats = [0, 0, 0, 0]
+    stats = [0, 0, 0, 0, 0]
     bp = None
     regress_note = ""
     n_sessions = n_mism = 0
@@ -418,6 +458,24 @@ def run(ctx):
         n_sessions += len(sessions)
         if c0 == 0:
             samples = sessions[:2]
+        # ---- model
+        rep = [i for i, s in enumerate(sessions) if L.representable(s)]
+        ctx.count("sessions_unrepresentable", len(sessions) - len(rep))
+        if bp is None:
+            # the model runs with the EXPECTED dependency test (paths only, /repo ed5101e); the catalogue is also
+            # evaluated under the as-found test, only to say in the evidence which variant the code behaves as
+            best, per_variant = decide_variant(ctx, [sessions[i] for i in rep if i < n_cat])
+            bp = EXPECTED_DEP
+            ctx.extra["model_variant_matching_code"] = {"dependency_test": best, "meaning": DEP_VARIANTS[best],
+                                                        "expected": EXPECTED_DEP,
+                                                        "mismatching_catalogue_sessions_per_variant": per_variant}
+            if best != EXPECTED_DEP:
+                regress_note = (" [the code behaves as the dependency test found before /repo ed5101e: resources "
+                                "compared by class and path]")
+        words, st4 = evaluate(ctx, [sessions[i] for i in rep], bp)
+        stats = [x + y for x, y in zip(stats, st4)]
+        mism = [(i, w) for i, w in zip(rep, words) if w]
+        mis_step = {i: describe(w)[0] for (i, w) in mism}
         # ---- oracle verdicts (computed next to the real run, on the live objects)
         for si, (ses, verdicts, info) in enumerate(results):
             nontrivial = info["selective_nonlifo"] > 0 or info["selective_multi"] > 0
@@ -438,6 +496,9 @@ def run(ctx):
                     ctx.count("template:%s" % st.letter)
             for v in verdicts[:1]:
                 ctx.count("oracle_verdict:%s" % v.kind)
+                if si in mis_step and mis_step[si] <= v.step and not v.cls.startswith("unexplained"):
+                    # a failure is attributed to a known finding only where the model predicts the code's behaviour
+                    v.cls = "unexplained:%s (the model does not predict the behaviour at step %d)" % (v.kind, mis_step[si])
                 key = v.cls
                 if key in reported and reported[key] >= 2:
                     continue
@@ -450,29 +511,12 @@ def run(ctx):
                     reported[key] = reported.get(key, 0) + 1
             if ctx.too_many(9):
                 break
-        # ---- model
-        rep = [i for i, s in enumerate(sessions) if L.representable(s)]
-        ctx.count("sessions_unrepresentable", len(sessions) - len(rep))
-        if bp is None:
-            # the model runs with the EXPECTED dependency test (paths only, /repo ed5101e); the catalogue is also
-            # evaluated under the as-found test, only to say in the evidence which variant the code behaves as
-            best, per_variant = decide_variant(ctx, [sessions[i] for i in rep if i < n_cat])
-            bp = EXPECTED_DEP
-            ctx.extra["model_variant_matching_code"] = {"dependency_test": best, "meaning": DEP_VARIANTS[best],
-                                                        "expected": EXPECTED_DEP,
-                                                        "mismatching_catalogue_sessions_per_variant": per_variant}
-            if best != EXPECTED_DEP:
-                regress_note = (" [the code behaves as the dependency test found before /repo ed5101e: resources "
-                                "compared by class and path]")
-        words, st4 = evaluate(ctx, [sessions[i] for i in rep], bp)
-        stats = [x + y for x, y in zip(stats, st4)]
-        mism = [(i, w) for i, w in zip(rep, words) if w]
         n_mism += len(mism)
         for (i, w) in mism[:3]:
             ses = sessions[i]
             step, what = describe(w)
             verdicts = results[i][1]
-            ctx.violation({"kind": "mismatch", "tree": ses.tree, "limit": ses.limit, "script": L.concrete_script(ses)[:step + 1],
+            ctx.violation({"kind": "mismatch", "tree": ses.tree, "limit": ses.limit, "script": L.concrete_script(ses)[:max(step, 0) + 1],
                            "step": step, "differs": what, "oracle": [v.kind for v in verdicts],
                            "broken": "correspondence RopeVerif.C11.Runner.report1 (model History.hstep over C10.Change.run vs "
                                      "rope/base/history.py + change.py): the model and the code disagree at this step (all words "
@@ -487,6 +531,7 @@ def run(ctx):
     ctx.extra["steps_in_theorem_domain"] = stats[0]
     ctx.extra["selective_steps_in_theorem_domain"] = stats[1]
     ctx.extra["reversible_do_steps"] = stats[3]
+    ctx.extra["well_behaved_steps_from_consistent_states"] = stats[4]
     if stats[2]:
         ctx.violation({"kind": "mismatch", "broken": "vm_compute of the model contradicts C11_selective_undo / C11_inv inside their "
                                                      "domain: the case files and the proved development disagree",
